@@ -10,7 +10,11 @@
 #include "box_base.h"
 /* every operation leaves its operands well formed and never cuts points away from them */
 #define KEEP_X  POST(x_wf, box_wf(x, G_xs)) POST(x_keeps_its_points, !G_satX0 || box_sat(x, G_xs))
+#ifndef BOX_ALIAS
 #define KEEP_Y  POST(y_wf, box_wf(y, G_ys)) POST(y_keeps_its_points, !G_satY0 || box_sat(y, G_ys))
+#else
+#define KEEP_Y  /* y is x: what happens to it is said by the clauses about x */
+#endif
 #define SETS_CONTAIN (G_emptyY0 || (!G_emptyX0 && ALLK(set_contains(&G_xs[0], &G_ys[0]), set_contains(&G_xs[1], &G_ys[1]))))
 #define SETS_EQUAL   (G_emptyX0 ? G_emptyY0 : (!G_emptyY0 && ALLK(set_eq(&G_xs[0], &G_ys[0]), set_eq(&G_xs[1], &G_ys[1]))))
 
